@@ -316,6 +316,11 @@ func (r *RegionScatterer) scatterRegion(region *core.RegionInfo, group string) *
 	// special engine stores if the engine supports to become a leader. But now there is only
 	// one engine, tiflash, which does not support the leader, so don't consider it for now.
 	targetLeader := r.selectAvailableLeaderStores(group, targetPeers, r.ordinaryEngine)
+	if targetLeader == 0 {
+		// The scatter operator forces its target leader: do not let it be picked blindly.
+		scatterCounter.WithLabelValues("skip", "no-leader-store").Inc()
+		return nil
+	}
 
 	for engine, peers := range specialPeers {
 		ctx, ok := r.specialEngines[engine]
@@ -414,11 +419,17 @@ func (r *RegionScatterer) selectStore(group string, peer *metapb.Peer, sourceSto
 // selectAvailableLeaderStores select the target leader store from the candidates. The candidates would be collected by
 // the existed peers store depended on the leader counts in the group level.
 func (r *RegionScatterer) selectAvailableLeaderStores(group string, peers map[uint64]*metapb.Peer, context engineContext) uint64 {
+	leaderFilter := &filter.StoreStateFilter{ActionScope: r.name, TransferLeader: true}
 	leaderCandidateStores := make([]uint64, 0)
-	for storeID := range peers {
+	for storeID, peer := range peers {
 		store := r.cluster.GetStore(storeID)
 		engine := store.GetLabelValue(filter.EngineKey)
-		if len(engine) < 1 {
+		if len(engine) > 0 || core.IsLearner(peer) {
+			continue
+		}
+		// The operator transfers the leader forcibly (possibly away and back again): only
+		// a store that accepts leaders may be named, even if it is the current leader.
+		if leaderFilter.Target(r.cluster.GetOpts(), store) {
 			leaderCandidateStores = append(leaderCandidateStores, storeID)
 		}
 	}
